@@ -80,6 +80,7 @@ type VC struct {
 	renderAllDecls bool
 	always   map[string][]*alwaysRec // watch -> accumulators (always("watch", "E") in the contract of the function under verification)
 	topFrame *frame
+	preStates map[string][]*State // watch name -> states right before each recorded call of it (in translation order)
 	mutexes  map[string]bool // mutexes locked/unlocked somewhere in this function (canonical names)
 	heldAsk  map[string]bool // names asked for by held("...") clauses
 	exitReach []Term
